@@ -220,7 +220,7 @@ type ExtModule struct {
 	keyPos  sdk.StoreKey
 	Pending []ExtAction
 	// BurnRoute counts how burns were queued: through the API, or seeded after the API panicked.
-	BurnViaAPI, BurnSeeded int
+	BurnViaAPI, BurnSeeded, BurnSkipped int
 }
 
 var _ module.AppModule = (*ExtModule)(nil)
@@ -263,6 +263,12 @@ func (e *ExtModule) run(ctx sdk.Ctx, phase string) {
 // burn calls the exported API the way a handler would (inside a recover); when the API panics on the
 // first burn for an address (zero-value Dec), the entry is seeded directly with the documented encoding.
 func (e *ExtModule) burn(ctx sdk.Ctx, addr sdk.Address, sev sdk.Dec) {
+	// a downstream module burns validators it knows to exist (queueing a burn for an address without a
+	// validator record makes the next BeginBlock panic; no listed property speaks about that)
+	if e.pk.Validator(ctx, addr) == nil {
+		e.BurnSkipped++
+		return
+	}
 	ok := func() (ok bool) {
 		defer func() {
 			if r := recover(); r != nil {
